@@ -1002,6 +1002,37 @@ def find_guards(body, through_calls=True):
     return out
 
 
+def operand_shifted(body, operand, depth=6):
+    """Is the compared operand a locally shifted / scaled value (`x + c`, `x - c`, `x * c`, ...)?  Walks back through
+    copies / casts of single-definition temporaries only, so loop-carried counters are not mistaken for shifts."""
+    if operand[0] not in ('copy', 'move') or operand[1][1]:
+        return None
+    l = operand[1][0]
+    for _ in range(depth):
+        ds = body.defs(l)
+        if len(ds) != 1 or l <= body.argc:
+            return None
+        bi, si, pl, rv = ds[0]
+        if si == 't' or pl[1]:
+            return None
+        if rv[0] == 'bin' and rv[1] in ('Add', 'Sub', 'Mul', 'AddWithOverflow', 'SubWithOverflow', 'MulWithOverflow', 'Shl', 'Shr', 'Div'):
+            if body.const_of(rv[2]) is not None or body.const_of(rv[3]) is not None:
+                return '%s by a constant (line %d)' % (rv[1].replace('WithOverflow', ''), bi)
+            return None
+        if rv[0] == 'use' and rv[1][0] in ('copy', 'move'):
+            pr = rv[1][1][1]
+            # `.0` of a checked-arithmetic tuple
+            if pr and not (len(pr) == 1 and isinstance(pr[0], tuple) and pr[0][0] == 'f'):
+                return None
+            l = rv[1][1][0]
+            continue
+        if rv[0] == 'cast' and rv[2][0] in ('copy', 'move') and not rv[2][1][1]:
+            l = rv[2][1][0]
+            continue
+        return None
+    return None
+
+
 def accepted_relation(body, g, success='ok'):
     """Order-abstraction points (a vs b) under which a success return stays reachable after the
     guard: union over the guard's arms from which success is reachable."""
